@@ -121,6 +121,20 @@ def check(model, rep, rule):
       probs.append('an operand is taken from the node as it was before generic_visit')
     if k > 1 and any(not ul for (_, ul) in bs[1:]):
       probs.append('a comparison after the first is not wrapped in a lambda')
+
+    def eager_operands(x):
+      # both operands of and_ are zero-argument callables
+      n_ = 0
+      if isinstance(x, tuple) and x and x[0] == 'term':
+        if x[1] == '_as_binary_function' and len(x) == 5 and x[2] == ('const', 'ag__.and_'):
+          n_ += sum(1 for a in x[3:5] if not (isinstance(a, tuple) and a[:2] == (
+              'term', '_as_lambda')))
+        n_ += sum(eager_operands(a) for a in x[2:])
+      elif isinstance(x, list):
+        n_ += sum(eager_operands(a) for a in x)
+      return n_
+    if eager_operands(t):
+      probs.append('an operand of ag__.and_ is passed as a value, not as a lambda')
     rep.check(not probs, rule, site,
               'a comparison chain must become the conjunction of its binary '
               'comparisons, in order, over the converted operands, each later one '
